@@ -297,6 +297,35 @@ impl TypeDef {
                 .collect(),
         }
     }
+    /// every type expression of the definition (field types - also of skipped variants -, `as`
+    /// types of fields / variants / the container, parameter defaults and `concrete` types)
+    pub fn for_each_ty_mut(&mut self, f: &mut dyn FnMut(&mut TyExpr)) {
+        for fld in self.all_fields_mut() {
+            f(&mut fld.ty);
+            if let Some(a) = &mut fld.as_type {
+                f(a);
+            }
+        }
+        for p in self.params.iter_mut() {
+            if let Some(d) = &mut p.default {
+                f(d);
+            }
+            if let Some(c) = &mut p.concrete {
+                f(c);
+            }
+        }
+        if let Some(a) = &mut self.attrs.as_type {
+            f(a);
+        }
+        if let Body::Enum(vs) = &mut self.body {
+            for v in vs {
+                if let Some(a) = &mut v.as_type {
+                    f(a);
+                }
+            }
+        }
+    }
+
     /// the TypeScript identifier the documentation promises
     pub fn ts_name(&self) -> String {
         match &self.attrs.rename {
@@ -358,6 +387,16 @@ pub fn inline_closure(types: &[TypeDef], d: usize) -> std::collections::BTreeSet
             }
             if let Some(x) = &p.concrete {
                 collect_users(x, &mut direct);
+            }
+        }
+        if let Some(a) = &td.attrs.as_type {
+            collect_users(a, &mut direct);
+        }
+        if let Body::Enum(vs) = &td.body {
+            for v in vs {
+                if let Some(a) = &v.as_type {
+                    collect_users(a, &mut direct);
+                }
             }
         }
         for f in td.all_fields() {
@@ -432,6 +471,12 @@ impl Module {
                 }
             }
             if let Body::Enum(vs) = &td.body {
+                if vs.iter().any(|v| matches!(v.body, VBody::Unit) && v.as_type.is_some()) {
+                    out.insert("as_on_unit_variant".to_string());
+                }
+                if vs.iter().any(|v| matches!(&v.body, VBody::Tuple(fs) if !fs.is_empty() && fs.iter().all(|f| f.skip))) {
+                    out.insert("tuple_variant_all_fields_skipped".to_string());
+                }
                 if td.attrs.repr() == Repr::Internal {
                     for v in vs {
                         if let VBody::Newtype(f) = &v.body {
